@@ -129,6 +129,21 @@ check("C13", "exploration",
       SIM + "2-party simulation with virtual clock and simulated USB re-enumeration, verbatim oracle",
       "DESIGN.md 4/C13", "manager-world")
 
+check("C18", "fault_enumeration",
+      "Every combination of platform {Ledger, SGX} x command {onboard, unlock, changepin, pubkeys} x device "
+      "state {mode, onboarded, echo} x operator script {PIN kind, argv or typed after invalid attempts, "
+      "--anypin, confirmation answers, --nounlock / --noexec} is run through the real adm_ledger.main / "
+      "adm_sgx.main as a tool process against the simulated device, operator, entropy stream, file system "
+      "and clock (complete enumeration of the enum product + seeded PIN strings). Oracle on the device's "
+      "APDU log with the device state at each APDU: seed / PIN / wipe only under the onboarding "
+      "preconditions and an explicit yes; seed = 32 bytes served by the entropy seam; unlock only to an "
+      "onboarded device in bootloader mode; onboarding / change PINs policy-compliant unless --anypin; "
+      "operation carried out when preconditions hold; public-key files hold the device's six keys.",
+      "Release firmware behaviour (device refuses non-compliant PINs); 'carried out' demanded only for "
+      "policy-compliant PINs; device models from firmware source.",
+      SIM + "tool-process simulation with scripted operator, entropy and device-state enumeration",
+      "DESIGN.md 4/C18", "admin-world")
+
 for _p in ["C02", "C03", "C06", "C07", "C08", "C09", "C10", "C11", "C12", "C15", "C17", "C18",
            "C19"]:
     if _p in CHECKS:
